@@ -60,7 +60,7 @@ PROPS = {
                 assumptions=["ASan+UBSan (recoverable) on all five libraries and the harness, LeakSanitizer check at the end of every run, library assertions as exceptions, watchdog",
                              "allocation failure is not injected (the property is about valid use)",
                              "only direct leaks are classified; leaks in a run in which the library threw an assertion are attributed to that assertion"]),
-    "C20": dict(build="plain", runs_quick=6000, budget_quick=50, runs_thorough=200000, budget_thorough=1200, rule=MIX_RULE + "; every evaluation executes the subject session three times: alone (lifo heap, constant fill), in the busy world (random placement, junk fill), and in the busy world with another heap seed; every fourth evaluation is instead a frame-twin world: two editor sessions, the second executing the first one's plan translated by k/1024 or mirrored/quarter-turned, compared transaction by transaction",
+    "C20": dict(build="plain", runs_quick=6000, budget_quick=50, runs_thorough=200000, budget_thorough=1200, rule=MIX_RULE + "; every evaluation executes the subject session three times: alone (lifo heap, constant fill), in the busy world (random placement, junk fill), and in the busy world with another heap seed; every third evaluation is instead a frame-twin world: two editor sessions, the second executing the first one's plan translated by k/1024 or mirrored/quarter-turned, compared transaction by transaction",
                 assumptions=["routes and solver positions compared bit-exact, layout positions to 1e-9", "frame clauses (translation, symmetries, permutation) are input relations executed as twin sessions"]),
     "C03": dict(build="plain", runs_quick=60000, budget_quick=40, runs_thorough=400000, budget_thorough=900, rule=ROUTER_RULE,
                 assumptions=["validity judged against the shapes themselves (not the buffered routing polygons), tolerance 1e-7 in clip parameter",
